@@ -1068,9 +1068,23 @@ namespace bloch::compiler {
 
         constexpr int kPrefixBindingPower =
             14;  // binds tighter than binary ops, looser than postfix
-    }            // namespace
+
+        // The analyser and the evaluator walk expressions recursively; a chain of thousands of
+        // operators ('~~~...~x', '1+1+...+1', 'x = x = ... = 1') would overflow the native stack
+        // instead of producing a diagnostic. Deeper than this is refused by the parser.
+        constexpr int kMaxExpressionDepth = 500;
+
+        struct DepthGuard {
+            int& depth;
+            explicit DepthGuard(int& d) : depth(d) { ++depth; }
+            ~DepthGuard() { --depth; }
+        };
+    }  // namespace
 
     std::unique_ptr<Expression> Parser::parseAssignmentExpression() {
+        DepthGuard guard(m_expressionDepth);
+        if (m_expressionDepth > kMaxExpressionDepth)
+            reportError("expression is nested too deeply");
         // Right-associative assignment built on top of Pratt for the rest.
         std::unique_ptr<Expression> left = parsePrattExpression(0);
 
@@ -1116,13 +1130,19 @@ namespace bloch::compiler {
     }
 
     std::unique_ptr<Expression> Parser::parsePrattExpression(int minBp) {
+        DepthGuard guard(m_expressionDepth);
+        if (m_expressionDepth > kMaxExpressionDepth)
+            reportError("expression is nested too deeply");
         std::unique_ptr<Expression> left = parsePrefixExpression();
 
+        int chained = 0;  // every turn of the loop makes 'left' one level deeper
         while (true) {
             const Token& tok = peek();
             auto binding = infixBinding(tok.type);
             if (!binding || binding->lbp < minBp)
                 break;
+            if (++chained > kMaxExpressionDepth)
+                reportError("expression is nested too deeply");
 
             (void)advance();  // consume operator / postfix marker
 
